@@ -1046,47 +1046,47 @@ def explore(tier, seed, rng, wd):
                                        f"rejected, or the public chrono-interop API changed",
                                "class": "harness-build", "no_input": True, "broken": "correspondence: Au.Chrono.mixedCompiles / API",
                                "rec": {"kind": "build", "config": cfg}, "detail": err})
-            continue
-        stats["configs"].append(f"{cfg} {opt}")
-        lines = []
-        for t in types:
-            lines.append(f"I {t['id']}")
-            for v in rtv[t["id"]]:
-                lines.append(f"R {t['id']} {to_cxx(t['rep'], v)}")
-            if not is_int(t["rep"]):
-                for sp in ("nan", "inf", "-inf", "-0x0p+0"):
-                    lines.append(f"R {t['id']} {sp}")
-        for pr in use:
-            lines.append(f"J {pr['id']}")
-            for (x1, x2) in pr["vals"]:
-                lines.append(f"O {pr['id']} {to_cxx(pr['a']['rep'], x1)} {to_cxx(pr['b']['rep'], x2)}")
-        answers, errs = run_lines(exe, lines)
-        lap("run_" + tag)
-        with open(os.path.join(wd, f"stderr_{tag}.txt"), "w") as ef:
-            ef.write("\n".join(errs))
-        vi = {}   # per-type / per-pair iterators over the value lists
-        for l, a in zip(lines, answers):
-            f = l.split()
-            cmd, ident = f[0], int(f[1])
-            if a is None or a == "bad":
-                violations.append({"what": "harness rejected a request", "class": "harness-bad", "no_input": True,
-                                   "broken": "harness protocol", "rec": {"kind": "protocol", "line": l, "config": cfg}})
-                continue
-            r = kv(a)
-            if cmd == "I":
-                check_type_info(byid[ident], corr[ident], r, cfg, violations, stats, samples)
-            elif cmd == "R":
-                check_rt(byid[ident], f[2], r, rans, rtv, cfg, violations, stats, samples)
-            elif cmd == "J":
-                check_pair_info(pbyid[ident], r, cfg, violations, stats)
-            elif cmd == "O":
-                pr = pbyid[ident]
-                i = vi.get(ident, 0)
-                vi[ident] = i + 1
-                x1, x2 = pr["vals"][i]
-                check_op(pr, x1, x2, r, mans[(ident, x1, x2)], cfg, violations, stats, samples, distinct)
-        stats["sanitizer_reports"] = stats.get("sanitizer_reports", 0) + sum(e.count("runtime error") for e in errs)
-        lap("compare_" + tag)
+        if exe is not None:
+            stats["configs"].append(f"{cfg} {opt}")
+            lines = []
+            for t in types:
+                lines.append(f"I {t['id']}")
+                for v in rtv[t["id"]]:
+                    lines.append(f"R {t['id']} {to_cxx(t['rep'], v)}")
+                if not is_int(t["rep"]):
+                    for sp in ("nan", "inf", "-inf", "-0x0p+0"):
+                        lines.append(f"R {t['id']} {sp}")
+            for pr in use:
+                lines.append(f"J {pr['id']}")
+                for (x1, x2) in pr["vals"]:
+                    lines.append(f"O {pr['id']} {to_cxx(pr['a']['rep'], x1)} {to_cxx(pr['b']['rep'], x2)}")
+            answers, errs = run_lines(exe, lines)
+            lap("run_" + tag)
+            with open(os.path.join(wd, f"stderr_{tag}.txt"), "w") as ef:
+                ef.write("\n".join(errs))
+            vi = {}   # per-type / per-pair iterators over the value lists
+            for l, a in zip(lines, answers):
+                f = l.split()
+                cmd, ident = f[0], int(f[1])
+                if a is None or a == "bad":
+                    violations.append({"what": "harness rejected a request", "class": "harness-bad", "no_input": True,
+                                       "broken": "harness protocol", "rec": {"kind": "protocol", "line": l, "config": cfg}})
+                    continue
+                r = kv(a)
+                if cmd == "I":
+                    check_type_info(byid[ident], corr[ident], r, cfg, violations, stats, samples)
+                elif cmd == "R":
+                    check_rt(byid[ident], f[2], r, rans, rtv, cfg, violations, stats, samples)
+                elif cmd == "J":
+                    check_pair_info(pbyid[ident], r, cfg, violations, stats)
+                elif cmd == "O":
+                    pr = pbyid[ident]
+                    i = vi.get(ident, 0)
+                    vi[ident] = i + 1
+                    x1, x2 = pr["vals"][i]
+                    check_op(pr, x1, x2, r, mans[(ident, x1, x2)], cfg, violations, stats, samples, distinct)
+            stats["sanitizer_reports"] = stats.get("sanitizer_reports", 0) + sum(e.count("runtime error") for e in errs)
+            lap("compare_" + tag)
         # acceptance traits (no run-time arithmetic: built without sanitizers)
         if ci == 0 or tier != "quick":
             aexe, err = build(wd, afiles, compiler, std, tag + "a", san=False)
